@@ -373,7 +373,7 @@ pub struct FCase {
 fn fval(range: f64) -> impl Strategy<Value = f64> {
     // a fifth of the values from a coarse grid of halves, so that equal magnitudes (ties at the
     // smallest magnitude, hard-decision style LLRs) occur within one check
-    prop_oneof![6 => -range..range, 1 => Just(0.0), 1 => -0.01f64..0.01, 1 => (-range * 10.0)..(range * 10.0), 2 => (-6i32..=6).prop_map(|k| f64::from(k) * 0.5)]
+    prop_oneof![12 => -range..range, 1 => Just(0.0), 1 => Just(-0.0), 2 => -0.01f64..0.01, 2 => (-range * 10.0)..(range * 10.0), 4 => (-6i32..=6).prop_map(|k| f64::from(k) * 0.5)]
 }
 
 pub fn f_strategy(_t: Tier) -> BoxedStrategy<FCase> {
